@@ -1,14 +1,443 @@
-// simdrv_net.cpp — sockets, acceptors, resolvers, servers (ops of the network domain).
+// simdrv_net.cpp — sockets, acceptors, resolvers (ops of the network domain).
+//
+//   s<k>  TCP socket      a<k>  acceptor      u<k>  UDP socket      r<k>  resolver
+//
+// Every asynchronous operation names its handler id h<k>; the H line carries what the
+// handler was called with (ec, byte count, data digest, endpoints). Buffers are owned by
+// the handler closure. Payload written on a TCP socket is the deterministic stream
+// `stream_byte(stream, offset)`; the stream id is given by the scenario per write.
 #include "simdrv.hpp"
+
+#include <cstdio>
+#include <cstring>
+#include <stdexcept>
+
+using namespace sim;
+using namespace sim::asio;
+namespace chr = sim::chrono;
+using boost::system::error_code;
 
 namespace simdrv {
 
 struct World::Net
 {
+	std::map<std::string, std::unique_ptr<ip::tcp::socket>> tcp;
+	std::map<std::string, std::unique_ptr<ip::tcp::acceptor>> acc;
+	std::map<std::string, std::unique_ptr<ip::udp::socket>> udp;
+	std::map<std::string, std::unique_ptr<ip::tcp::resolver>> rtcp;
+	std::map<std::string, std::unique_ptr<ip::udp::resolver>> rudp;
+	std::map<std::string, std::string> node_of;           // object -> node name
+	std::map<std::string, std::uint64_t> wr_off;          // "<socket>/<stream>" -> next offset to write
+	std::map<std::string, std::unique_ptr<ip::tcp::endpoint>> peer_ep;   // accept_ep out-params
 };
 
-bool World::op_net(std::string const&, toks const&)
+static std::string tep(ip::tcp::endpoint const& ep)
 {
+	std::string a = ep.address().to_string();
+	if (ep.address().is_v6()) return "[" + a + "]:" + std::to_string(ep.port());
+	return a + ":" + std::to_string(ep.port());
+}
+static std::string uep(ip::udp::endpoint const& ep)
+{
+	std::string a = ep.address().to_string();
+	if (ep.address().is_v6()) return "[" + a + "]:" + std::to_string(ep.port());
+	return a + ":" + std::to_string(ep.port());
+}
+
+template <class Ep>
+static Ep parse_ep(std::string const& s)
+{
+	// a.b.c.d:port | [v6]:port
+	std::size_t colon = s.rfind(':');
+	std::string a = s.substr(0, colon);
+	if (!a.empty() && a[0] == '[') a = a.substr(1, a.size() - 2);
+	return Ep(ip::make_address(a), static_cast<unsigned short>(std::atoi(s.c_str() + colon + 1)));
+}
+
+static std::uint64_t fnv(std::uint8_t const* p, std::size_t n)
+{
+	std::uint64_t h = 1469598103934665603ull;
+	for (std::size_t i = 0; i < n; ++i) { h ^= p[i]; h *= 1099511628211ull; }
+	return h;
+}
+
+static std::string data_desc(std::uint8_t const* p, std::size_t n)
+{
+	if (n <= 48) return "data=" + hex(p, n);
+	char buf[64];
+	std::snprintf(buf, sizeof(buf), "sum=%016llx", (unsigned long long)fnv(p, n));
+	return buf;
+}
+
+// split `total` bytes into `k` buffers (sizes as equal as possible, the first ones larger)
+static std::vector<std::size_t> cut(std::size_t total, int k)
+{
+	std::vector<std::size_t> r;
+	if (k < 1) k = 1;
+	for (int i = 0; i < k; ++i)
+	{
+		std::size_t s = total / std::size_t(k) + (std::size_t(i) < total % std::size_t(k) ? 1 : 0);
+		r.push_back(s);
+	}
+	return r;
+}
+
+struct api_scope2
+{
+	explicit api_scope2(World& w) : m_w(w) { ++m_w.api_depth; }
+	~api_scope2() { --m_w.api_depth; }
+	World& m_w;
+};
+
+bool World::op_net(std::string const& ctx, toks const& op)
+{
+	if (!net) net = std::make_shared<Net>();
+	Net& N = *net;
+	std::string const text = join(op, 0);
+	std::string const& o = op[0];
+	char const* c = ctx.c_str();
+	std::size_t dot = o.find('.');
+	if (dot == std::string::npos) return false;
+	std::string const name = o.substr(0, dot);
+	std::string const m = o.substr(dot + 1);
+	if (name.size() < 2 || !isdigit(name[1])) return false;
+	char const kind = name[0];
+	auto res = [&](std::string const& r) { emit("C %s %s => %s", c, text.c_str(), r.c_str()); };
+
+	try {
+	// ---------------------------------------------------------------- TCP socket
+	if (kind == 's')
+	{
+		if (m == "new")
+		{
+			N.tcp[name].reset(new ip::tcp::socket(node(op.size() > 1 ? op[1] : default_node)));
+			N.node_of[name] = op.size() > 1 ? op[1] : default_node;
+			res("-"); return true;
+		}
+		auto it = N.tcp.find(name);
+		if (it == N.tcp.end() || !it->second) { res("skipped"); return true; }
+		ip::tcp::socket& s = *it->second;
+		error_code ec;
+		if (m == "destroy") { { api_scope2 g(*this); N.tcp.erase(it); } res("-"); }
+		else if (m == "open") { { api_scope2 g(*this); s.open(op.at(1) == "v6" ? ip::tcp::v6() : ip::tcp::v4(), ec); } res(ec_name(ec)); }
+		else if (m == "bind")
+		{
+			{ api_scope2 g(*this); s.bind(parse_ep<ip::tcp::endpoint>(op.at(1)), ec); }
+			error_code e2; auto le = s.local_endpoint(e2);
+			res(std::string(ec_name(ec)) + " local=" + (e2 ? ec_name(e2) : tep(le)));
+		}
+		else if (m == "connect")
+		{
+			std::string h = op.at(2);
+			{ api_scope2 g(*this); s.async_connect(parse_ep<ip::tcp::endpoint>(op.at(1)), make_h(h)); }
+			res("-");
+		}
+		else if (m == "write")
+		{
+			std::string h = op.at(1);
+			int const stream = int(kvi(op, "stream", 0));
+			std::size_t const len = std::size_t(kvi(op, "len", 1));
+			int const nb = int(kvi(op, "bufs", 1));
+			std::string const key = name + "/" + std::to_string(stream);
+			std::uint64_t const off = N.wr_off[key];
+			auto data = std::make_shared<std::vector<std::uint8_t>>(len);
+			for (std::size_t i = 0; i < len; ++i) (*data)[i] = stream_byte(stream, off + i);
+			std::vector<boost::asio::const_buffer> bufs;
+			std::size_t pos = 0;
+			for (std::size_t sz : cut(len, nb)) { bufs.push_back(boost::asio::const_buffer(data->data() + pos, sz)); pos += sz; }
+			{
+				api_scope2 g(*this);
+				s.async_write_some(bufs, [this, h, data, key, stream, off](error_code const& e, std::size_t n)
+				{
+					if (net) net->wr_off[key] += n;
+					on_handler(h, e, "n=" + std::to_string(n) + " stream=" + std::to_string(stream) + " off=" + std::to_string(off));
+				});
+			}
+			res("-");
+		}
+		else if (m == "read")
+		{
+			std::string h = op.at(1);
+			std::size_t const cap = std::size_t(kvi(op, "cap", 1));
+			int const nb = int(kvi(op, "bufs", 1));
+			auto data = std::make_shared<std::vector<std::uint8_t>>(cap);
+			std::vector<boost::asio::mutable_buffer> bufs;
+			std::size_t pos = 0;
+			for (std::size_t sz : cut(cap, nb)) { if (sz) bufs.push_back(boost::asio::mutable_buffer(data->data() + pos, sz)); pos += sz; }
+			{
+				api_scope2 g(*this);
+				s.async_read_some(bufs, [this, h, data](error_code const& e, std::size_t n)
+				{
+					on_handler(h, e, "n=" + std::to_string(n) + " " + data_desc(data->data(), std::min(n, data->size())));
+				});
+			}
+			res("-");
+		}
+		else if (m == "wait_read")
+		{
+			{ api_scope2 g(*this); s.async_wait(ip::tcp::socket::wait_read, make_h(op.at(1))); }
+			res("-");
+		}
+		else if (m == "read_nb")
+		{
+			std::size_t const cap = std::size_t(kvi(op, "cap", 1));
+			int const nb = int(kvi(op, "bufs", 1));
+			std::vector<std::uint8_t> data(cap);
+			std::vector<boost::asio::mutable_buffer> bufs;
+			std::size_t pos = 0;
+			for (std::size_t sz : cut(cap, nb)) { if (sz) bufs.push_back(boost::asio::mutable_buffer(data.data() + pos, sz)); pos += sz; }
+			std::size_t n;
+			{ api_scope2 g(*this); s.non_blocking(true); n = s.read_some(bufs, ec); }
+			res(std::string(ec_name(ec)) + " n=" + std::to_string(n) + " " + data_desc(data.data(), std::min(n, data.size())));
+		}
+		else if (m == "close") { { api_scope2 g(*this); s.close(ec); } res(ec_name(ec)); }
+		else if (m == "cancel") { { api_scope2 g(*this); s.cancel(ec); } res(ec_name(ec)); }
+		else if (m == "available") { std::size_t n = s.available(ec); res(std::string(ec_name(ec)) + " n=" + std::to_string(n)); }
+		else if (m == "local") { auto e = s.local_endpoint(ec); res(ec ? ec_name(ec) : tep(e)); }
+		else if (m == "remote") { auto e = s.remote_endpoint(ec); res(ec ? ec_name(ec) : tep(e)); }
+		else if (m == "is_open") res(s.is_open() ? "1" : "0");
+		else if (m == "move")
+		{
+			// move-construct a new socket object from this one; the source object stays (moved-from)
+			std::string const to = op.at(1);
+			{ api_scope2 g(*this); N.tcp[to].reset(new ip::tcp::socket(std::move(s))); }
+			N.node_of[to] = N.node_of[name];
+			for (auto& kvp : std::map<std::string, std::uint64_t>(N.wr_off))
+				if (kvp.first.compare(0, name.size() + 1, name + "/") == 0)
+					N.wr_off[to + kvp.first.substr(name.size())] = kvp.second;
+			res("-");
+		}
+		else return false;
+		return true;
+	}
+	// ---------------------------------------------------------------- acceptor
+	if (kind == 'a')
+	{
+		if (m == "new")
+		{
+			N.acc[name].reset(new ip::tcp::acceptor(node(op.size() > 1 ? op[1] : default_node)));
+			N.node_of[name] = op.size() > 1 ? op[1] : default_node;
+			res("-"); return true;
+		}
+		auto it = N.acc.find(name);
+		if (it == N.acc.end() || !it->second) { res("skipped"); return true; }
+		ip::tcp::acceptor& a = *it->second;
+		error_code ec;
+		if (m == "destroy") { { api_scope2 g(*this); N.acc.erase(it); } res("-"); }
+		else if (m == "open") { { api_scope2 g(*this); a.open(op.at(1) == "v6" ? ip::tcp::v6() : ip::tcp::v4(), ec); } res(ec_name(ec)); }
+		else if (m == "bind")
+		{
+			{ api_scope2 g(*this); a.bind(parse_ep<ip::tcp::endpoint>(op.at(1)), ec); }
+			error_code e2; auto le = a.local_endpoint(e2);
+			res(std::string(ec_name(ec)) + " local=" + (e2 ? ec_name(e2) : tep(le)));
+		}
+		else if (m == "listen") { { api_scope2 g(*this); a.listen(op.size() > 1 ? std::atoi(op[1].c_str()) : -1, ec); } res(ec_name(ec)); }
+		else if (m == "accept")
+		{
+			auto st = N.tcp.find(op.at(1));
+			if (st == N.tcp.end() || !st->second) { res("skipped"); return true; }
+			{ api_scope2 g(*this); a.async_accept(*st->second, make_h(op.at(2))); }
+			res("-");
+		}
+		else if (m == "accept_ep")
+		{
+			auto st = N.tcp.find(op.at(1));
+			if (st == N.tcp.end() || !st->second) { res("skipped"); return true; }
+			std::string h = op.at(2);
+			auto& pe = N.peer_ep[name];
+			pe.reset(new ip::tcp::endpoint());
+			ip::tcp::endpoint* pep = pe.get();
+			{
+				api_scope2 g(*this);
+				a.async_accept(*st->second, *pep, [this, h, pep](error_code const& e)
+				{ on_handler(h, e, "ep=" + tep(*pep)); });
+			}
+			res("-");
+		}
+		else if (m == "accept_new")
+		{
+			std::string const to = op.at(1);
+			std::string h = op.at(2);
+			std::string const nd = N.node_of[name];
+			{
+				api_scope2 g(*this);
+				a.async_accept([this, h, to, nd](error_code const& e, ip::tcp::socket peer)
+				{
+					if (net)
+					{
+						net->tcp[to].reset(new ip::tcp::socket(std::move(peer)));
+						net->node_of[to] = nd;
+					}
+					on_handler(h, e, "");
+				});
+			}
+			res("-");
+		}
+		else if (m == "close") { { api_scope2 g(*this); a.close(ec); } res(ec_name(ec)); }
+		else if (m == "close0")
+		{
+			std::string r = "-";
+			try { api_scope2 g(*this); a.close(); }
+			catch (boost::system::system_error const& e) { r = ec_name(e.code()); }
+			res(r);
+		}
+		else if (m == "cancel") { { api_scope2 g(*this); a.cancel(ec); } res(ec_name(ec)); }
+		else if (m == "local") { auto e = a.local_endpoint(ec); res(ec ? ec_name(ec) : tep(e)); }
+		else if (m == "is_open") res(a.is_open() ? "1" : "0");
+		else return false;
+		return true;
+	}
+	// ---------------------------------------------------------------- UDP socket
+	if (kind == 'u')
+	{
+		if (m == "new")
+		{
+			N.udp[name].reset(new ip::udp::socket(node(op.size() > 1 ? op[1] : default_node)));
+			N.node_of[name] = op.size() > 1 ? op[1] : default_node;
+			res("-"); return true;
+		}
+		auto it = N.udp.find(name);
+		if (it == N.udp.end() || !it->second) { res("skipped"); return true; }
+		ip::udp::socket& u = *it->second;
+		error_code ec;
+		if (m == "destroy") { { api_scope2 g(*this); N.udp.erase(it); } res("-"); }
+		else if (m == "open") { { api_scope2 g(*this); u.open(op.at(1) == "v6" ? ip::udp::v6() : ip::udp::v4(), ec); } res(ec_name(ec)); }
+		else if (m == "bind")
+		{
+			{ api_scope2 g(*this); u.bind(parse_ep<ip::udp::endpoint>(op.at(1)), ec); }
+			error_code e2; auto le = u.local_endpoint(e2);
+			res(std::string(ec_name(ec)) + " local=" + (e2 ? ec_name(e2) : uep(le)));
+		}
+		else if (m == "send_to")
+		{
+			std::size_t const len = std::size_t(kvi(op, "len", 0));
+			int const nb = int(kvi(op, "bufs", 1));
+			std::uint64_t const id = std::uint64_t(kvi(op, "id", 0));
+			std::vector<std::uint8_t> data(len);
+			for (std::size_t i = 0; i < len; ++i) data[i] = std::uint8_t((id * 7 + i) & 0xff);
+			std::vector<boost::asio::const_buffer> bufs;
+			std::size_t pos = 0;
+			for (std::size_t sz : cut(len, nb)) { bufs.push_back(boost::asio::const_buffer(data.data() + pos, sz)); pos += sz; }
+			std::size_t n;
+			{ api_scope2 g(*this); u.non_blocking(true); n = u.send_to(bufs, parse_ep<ip::udp::endpoint>(op.at(1)), 0, ec); }
+			res(std::string(ec_name(ec)) + " n=" + std::to_string(n));
+		}
+		else if (m == "recv" || m == "recv_noep")
+		{
+			std::string h = op.at(1);
+			std::size_t const cap = std::size_t(kvi(op, "cap", 1));
+			int const nb = int(kvi(op, "bufs", 1));
+			auto data = std::make_shared<std::vector<std::uint8_t>>(cap);
+			auto sender = std::make_shared<ip::udp::endpoint>();
+			std::vector<boost::asio::mutable_buffer> bufs;
+			std::size_t pos = 0;
+			for (std::size_t sz : cut(cap, nb)) { if (sz) bufs.push_back(boost::asio::mutable_buffer(data->data() + pos, sz)); pos += sz; }
+			bool const with_ep = (m == "recv");
+			auto fn = [this, h, data, sender, with_ep](error_code const& e, std::size_t n)
+			{
+				on_handler(h, e, "n=" + std::to_string(n) + (with_ep ? " ep=" + uep(*sender) : std::string())
+					+ " " + data_desc(data->data(), std::min(n, data->size())));
+			};
+			{
+				api_scope2 g(*this);
+				if (with_ep) u.async_receive_from(bufs, *sender, fn);
+				else u.async_receive(bufs, fn);
+			}
+			res("-");
+		}
+		else if (m == "wait_read") { { api_scope2 g(*this); u.async_wait(ip::udp::socket::wait_read, make_h(op.at(1))); } res("-"); }
+		else if (m == "wait_write") { { api_scope2 g(*this); u.async_wait(ip::udp::socket::wait_write, make_h(op.at(1))); } res("-"); }
+		else if (m == "recv_nb")
+		{
+			std::size_t const cap = std::size_t(kvi(op, "cap", 1));
+			int const nb = int(kvi(op, "bufs", 1));
+			std::vector<std::uint8_t> data(cap);
+			ip::udp::endpoint sender;
+			std::vector<boost::asio::mutable_buffer> bufs;
+			std::size_t pos = 0;
+			for (std::size_t sz : cut(cap, nb)) { if (sz) bufs.push_back(boost::asio::mutable_buffer(data.data() + pos, sz)); pos += sz; }
+			std::size_t n;
+			{ api_scope2 g(*this); u.non_blocking(true); n = u.receive_from(bufs, sender, 0, ec); }
+			res(std::string(ec_name(ec)) + " n=" + std::to_string(n) + " ep=" + uep(sender) + " " + data_desc(data.data(), std::min(n, data.size())));
+		}
+		else if (m == "close") { { api_scope2 g(*this); u.close(ec); } res(ec_name(ec)); }
+		else if (m == "cancel") { { api_scope2 g(*this); u.cancel(ec); } res(ec_name(ec)); }
+		else if (m == "local") { auto e = u.local_endpoint(ec); res(ec ? ec_name(ec) : uep(e)); }
+		else if (m == "is_open") res(u.is_open() ? "1" : "0");
+		else if (m == "set_df")
+		{
+#ifdef IP_MTU_DISCOVER
+			boost::asio::detail::socket_option::integer<IPPROTO_IP, IP_MTU_DISCOVER> opt(op.at(1) == "1" ? IP_PMTUDISC_DO : IP_PMTUDISC_DONT);
+			u.set_option(opt, ec);
+#endif
+			res(ec_name(ec));
+		}
+		else if (m == "move")
+		{
+			std::string const to = op.at(1);
+			{ api_scope2 g(*this); N.udp[to].reset(new ip::udp::socket(std::move(u))); }
+			N.node_of[to] = N.node_of[name];
+			res("-");
+		}
+		else return false;
+		return true;
+	}
+	// ---------------------------------------------------------------- resolver
+	if (kind == 'r')
+	{
+		if (m == "new")
+		{
+			std::string nd = op.size() > 1 ? op[1] : default_node;
+			bool const is_udp = op.size() > 2 && op[2] == "udp";
+			if (is_udp) N.rudp[name].reset(new ip::udp::resolver(node(nd)));
+			else N.rtcp[name].reset(new ip::tcp::resolver(node(nd)));
+			res("-"); return true;
+		}
+		auto it1 = N.rtcp.find(name);
+		auto it2 = N.rudp.find(name);
+		bool const has1 = it1 != N.rtcp.end() && it1->second;
+		bool const has2 = it2 != N.rudp.end() && it2->second;
+		if (!has1 && !has2) { res("skipped"); return true; }
+		if (m == "resolve")
+		{
+			std::string host = op.at(1) == "-" ? std::string() : op.at(1);
+			auto service = std::make_shared<std::string>(op.at(2));
+			std::string h = op.at(3);
+			{
+				api_scope2 g(*this);
+				if (has1) it1->second->async_resolve(host, service->c_str()
+					, [this, h, service](error_code const& e, ip::tcp::resolver::results_type ips)
+					{
+						std::string r;
+						for (auto const& x : ips) { if (!r.empty()) r += ","; r += tep(x.endpoint()); }
+						on_handler(h, e, "res=" + (r.empty() ? std::string("-") : r));
+					});
+				else it2->second->async_resolve(host, service->c_str()
+					, [this, h, service](error_code const& e, ip::udp::resolver::results_type ips)
+					{
+						std::string r;
+						for (auto const& x : ips) { if (!r.empty()) r += ","; r += uep(x.endpoint()); }
+						on_handler(h, e, "res=" + (r.empty() ? std::string("-") : r));
+					});
+			}
+			res("-");
+		}
+		else if (m == "cancel") { { api_scope2 g(*this); if (has1) it1->second->cancel(); else it2->second->cancel(); } res("-"); }
+		else if (m == "destroy") { { api_scope2 g(*this); if (has1) N.rtcp.erase(it1); else N.rudp.erase(it2); } res("-"); }
+		else return false;
+		return true;
+	}
+	}
+	catch (boost::system::system_error const& e)
+	{
+		res(std::string("throw ") + ec_name(e.code()));
+		return true;
+	}
+	catch (std::out_of_range const&)
+	{
+		res("bad-op");
+		return true;
+	}
 	return false;
 }
 
